@@ -2,7 +2,7 @@
    field: they are proved here for the rationals (Qc), which shows that the
    hypotheses of C10_max_step_exact_partial are satisfiable by a non-trivial
    carrier. *)
-From Coq Require Import List Bool QArith Qcanon.
+From Coq Require Import List Bool NArith QArith Qcanon.
 From XD Require Import model.Opt.
 Import ListNotations.
 Open Scope Qc_scope.
@@ -13,7 +13,7 @@ Definition qabs (a : Qc) : Qc := if Qclt_le_dec a 0 then - a else a.
 Definition qenv : env :=
   mkEnv Qc 0 1 (Q2Qc (1 # 2)) Qcplus Qcminus Qcmult Qcdiv qabs qltb (fun a b => negb (qltb b a))
         0 (Q2Qc 10) (Q2Qc 100) 0 (Q2Qc (-1000)) (Q2Qc 1000)
-        (fun k => Some k) (fun _ => 0) (fun _ _ => Some []) (fun j _ _ _ _ => j) (fun x => x).
+        (fun k => Some k) (fun _ => 0) (fun _ _ => Some []) (fun j _ _ _ _ => j) (fun x => x) N.eqb.
 
 Lemma qltb_true a b : qltb a b = true <-> a < b.
 Proof.
